@@ -505,6 +505,7 @@ type Contract struct {
 	Assumes  []Clause // stated mathematical facts, assumed when verifying the body; listed in the evidence
 	Footprint []*Node // objects whose fields (of the maps in Modifies) may change; all others keep theirs
 	Abstract []*Node // nonlinear terms replaced by fresh constants in a first proof attempt
+	Thin     bool // generated by the safety sweep
 	NoVerify bool // contract is only used at call sites (body outside subset); listed as assumption
 	Lets     []LetSpec
 }
